@@ -76,12 +76,17 @@ def minimise(rt, labels, mismatch, threads):
     return labels[: mismatch["step"] + 1]
 
 
-def check(prop, tier, threads, mc_cfg, gen_cfg, split, maxlen, walks, walk_len, module="MC_Runtime"):
+def check(prop, tier, threads, mc_cfg, gen_cfg, split, maxlen, walks, walk_len, module="MC_Runtime", extra_mc=()):
     global _G
     timer = Timer()
     rep = Reporter(prop)
     with Scratch() as sc:
         mc = tlc.require_clean(tlc.run_tlc(module, mc_cfg, workers=NPROC, scratch=sc), mc_cfg)
+        extra_states = extra_trans = 0
+        for c in extra_mc:  # deeper bounds, model checking only (the graph would be too large to export)
+            r = tlc.require_clean(tlc.run_tlc(module, c, workers=NPROC, scratch=sc), c)
+            extra_states += r.distinct
+            extra_trans += r.generated
         g = graph.Graph()
         gen = tlc.require_clean(
             tlc.run_tlc(module, gen_cfg, workers=1, scratch=sc, collect="EDGE ",
@@ -141,8 +146,8 @@ def check(prop, tier, threads, mc_cfg, gen_cfg, split, maxlen, walks, walk_len, 
         sample = cover[len(cover) // 2] if cover else []
         code = rep.finish()
         evidence.write(prop, tier, "model_checking", {
-            "states": mc.distinct,
-            "transitions": mc.generated,
+            "states": mc.distinct + extra_states,
+            "transitions": mc.generated + extra_trans,
             "traces_validated_against_impl": total,
             "evaluations": total,
             "distinct_nontrivial": nontriv,
@@ -189,5 +194,5 @@ def main_c14(tier):
     if tier == "quick":
         return check("C14", tier, ["t1"], "MC_Runtime_c14_quick.cfg", "Gen_Runtime_c14_quick.cfg",
                      split=2, maxlen=5, walks=20000, walk_len=12)
-    return check("C14", tier, ["t1"], "MC_Runtime_c14_thorough.cfg", "Gen_Runtime_c14_thorough.cfg",
-                 split=3, maxlen=6, walks=200000, walk_len=16)
+    return check("C14", tier, ["t1"], "MC_Runtime_x1.cfg", "Gen_Runtime_x1.cfg",
+                 split=3, maxlen=6, walks=200000, walk_len=16, extra_mc=("MC_Runtime_c14_thorough.cfg",))
